@@ -143,6 +143,10 @@ def client_requests(rng, ci, ident, version, shared, hist):
         except Exception:
             continue
         reqs.append(data)
+        if rng.random() < 0.12:
+            # an undecodable frame: answered by the session itself (error response built outside the engine lock)
+            junk = bytes(rng.getrandbits(8) for _ in range(16))
+            reqs.append(b'\x42\x00\x78\x01' + len(junk).to_bytes(4, 'big') + junk)
     return reqs
 
 
@@ -205,6 +209,13 @@ def run_case(ctx, case):
             frames.append(client_requests(rng, ci, ident, version, shared, case['hist']))
         if sum(len(f) for f in frames) < 2:
             return
+        refused_client = None
+        if rng.random() < 0.5:
+            # a further connection whose certificate lacks clientAuth: every request of it is refused by the session
+            refused_client = len(clients)
+            clients = clients + [(('mallory', None), (1, 2))]
+            frames.append([rig.encode_request(rig.build_request((1, 2), [op_locate()]), (1, 2)) for _ in range(rng.randrange(2, 6))])
+            nclients += 1
         work = d + '/work.sqlite'
         shutil.copyfile(base, work)
         srv = rig.Server(work)
@@ -269,7 +280,7 @@ def run_case(ctx, case):
 
         def session_thread(ci):
             ident, version = clients[ci]
-            der = rig.make_cert((ident[0],), 'client')
+            der = rig.make_cert((ident[0],), 'client' if ci != refused_client else 'server')
             conn = StampedConnection(frames[ci], der, random.Random(ci), counter, log, ci)
             sess = rig.make_session(eng, conn, name='c10-%d' % ci)
             # groups come from an auth plug-in in production; here the session's authenticate is replaced by
@@ -283,8 +294,8 @@ def run_case(ctx, case):
                 except BaseException as e:   # noqa
                     escaped.append((ci, e))
                     break
-        for (ident, version) in clients:
-            rig.make_cert((ident[0],), 'client')     # build certificates before the threads start
+        for ci_, (ident, version) in enumerate(clients):
+            rig.make_cert((ident[0],), 'client' if ci_ != refused_client else 'server')     # before the threads start
         threads = [threading.Thread(target=session_thread, args=(ci,)) for ci in range(nclients)]
         try:
             for t in threads:
@@ -350,6 +361,23 @@ def run_case(ctx, case):
                 generated.add(r[0])
         final = dump_for_compare(work, base_max, generated)
         want = {k: norm_response(ops[k]['resp'], base_max) for k in keys}
+        session_level = set()
+        for k in keys:
+            fr = frames[k[0]][k[1]]
+            undecodable = False
+            try:
+                rig.decode_request(fr)
+            except Exception:
+                undecodable = True
+            if undecodable or k[0] == refused_client:
+                session_level.add(k)
+                r_ = rig.Result(ops[k]['resp'])
+                exp_reason = E.ResultReason.INVALID_MESSAGE.value if undecodable else E.ResultReason.AUTHENTICATION_NOT_SUCCESSFUL.value
+                if k[0] == refused_client:
+                    exp_reason = E.ResultReason.AUTHENTICATION_NOT_SUCCESSFUL.value
+                if not (len(r_.items) == 1 and r_.items[0]['reason'] == exp_reason):
+                    ctx.violation('session-level-answer', 'a request the session must refuse by itself was answered %s' % (r_.brief(),), detail)
+        ctx.count('session_level_requests', len(session_level))
         # Wing-Gong search by replay ---------------------------------------------------
         heads = [0] * nclients
         budget = [400]
@@ -378,6 +406,14 @@ def run_case(ctx, case):
             cands.sort(key=lambda c: ops[c]['ret'])
             result = False
             for c in cands:
+                if c in session_level:
+                    # answered by the session without entering the engine: no effect on the store, any position
+                    res = search(order + [c], path, depth + 1)
+                    if res:
+                        return res
+                    if res is None:
+                        result = None
+                    continue
                 budget[0] -= 1
                 nxt = '%s/s%d-%d.sqlite' % (d, depth, budget[0])
                 shutil.copyfile(path, nxt)
